@@ -108,6 +108,24 @@ def property_theorems(prop_id):
     return res, ns
 
 
+def import_cone(modules):
+    """Source files of the given modules and of everything they import inside this project."""
+    seen, todo, files = set(), list(modules), []
+    while todo:
+        m = todo.pop()
+        if m in seen:
+            continue
+        seen.add(m)
+        f = LEAN / (m.replace('.', '/') + '.lean')
+        if not f.exists():
+            continue
+        files.append(f)
+        for imp in re.findall(r'^import\s+(\S+)', f.read_text(), re.M):
+            if imp.startswith(('Mistletoe', 'Driver')):
+                todo.append(imp)
+    return sorted(files)
+
+
 def lean_prepare(prop_id, extra_modules=(), thorough=False, log=print):
     """Regenerate Gen/*, build library + driver, audit the property's theorems."""
     st = LeanState()
@@ -121,7 +139,8 @@ def lean_prepare(prop_id, extra_modules=(), thorough=False, log=print):
             st.bad.append('extract: %s: %s' % (type(e).__name__, e))
             st.gen_changed = ['<extract failed>']
         t0 = time.time()
-        rc, out = _run(['lake', 'build', 'Mistletoe', 'driver'], cwd=LEAN, timeout=3000)
+        targets = ['Mistletoe.Props.' + prop_id] + list(extra_modules) + ['driver']
+        rc, out = _run(['lake', 'build'] + targets, cwd=LEAN, timeout=3000)
         st.build_log = out
         st.build_ok = rc == 0
         st.driver_ok = DRIVER.exists() and rc == 0
@@ -142,7 +161,7 @@ def lean_prepare(prop_id, extra_modules=(), thorough=False, log=print):
         st.bad.append('no property theorems found for ' + prop_id)
         return st
     # source hygiene on the whole development (comments stripped)
-    for f in sorted((LEAN / 'Mistletoe').rglob('*.lean')):
+    for f in import_cone(['Mistletoe.Props.' + prop_id] + list(extra_modules) + ['Main']):
         m = FORBIDDEN.search(strip_lean_comments(f.read_text()))
         if m:
             st.bad.append('forbidden construct %r in %s' % (m.group(0).strip(), f.relative_to(LEAN)))
